@@ -78,6 +78,7 @@ class Obj:
         self.q = q          # declared type string if known
         self.f = {}
         self.id = Obj.n
+        self.freed = None    # set by the poisoning model of free(): any later access is a use after free
     def __repr__(self): return '<%s>' % self.label
 
 
@@ -388,6 +389,8 @@ class Interp:
             self.assign(obj, path, v, q)
 
     def assign(self, obj, path, v, q=None):
+        if obj.freed is not None:
+            raise Terminal('use-after-free', 'write to %r, released at %s' % (obj, obj.freed))
         if obj.kind == 'str' and not getattr(obj, 'writable', False):
             raise Unsupported('write to string literal')
         if obj.kind == 'symstr' and len(path) == 1 and isinstance(v, int):
@@ -415,6 +418,8 @@ class Interp:
             obj.f[path] = v
 
     def load(self, obj, path, q=None):
+        if obj.freed is not None:
+            raise Terminal('use-after-free', 'read of %r, released at %s' % (obj, obj.freed))
         f = obj.f
         if path in f:
             v = f[path]
@@ -1391,6 +1396,8 @@ def read_cstr(interp, p):
         return p.obj.symstr.concrete(interp, p)
     if not isinstance(p, Ptr) or not p.path or not isinstance(p.path[-1], int):
         raise Unsupported('not a string pointer: %r' % (p,))
+    if p.obj.freed is not None:
+        raise Terminal('use-after-free', 'read of string %r, released at %s' % (p.obj, p.obj.freed))
     out = []
     base, i = p.path[:-1], p.path[-1]
     while True:
@@ -1426,6 +1433,18 @@ def m_alloc_array(it, args, e):
 
 def m_free(it, args, e):
     it.event('free', args[0])
+    return None
+
+
+def m_free_poison(it, args, e):
+    """free() that poisons the object: later loads/stores/string reads raise Terminal('use-after-free'); a second free too"""
+    p = args[0]
+    if isinstance(p, Ptr):
+        if p.obj.freed is not None:
+            raise Terminal('use-after-free', 'double free of %r (first released at %s)' % (p.obj, p.obj.freed))
+        if p.obj.kind == 'str' and not getattr(p.obj, 'heapstr', False) and not getattr(p.obj, 'writable', False):
+            raise Terminal('use-after-free', 'free of a string literal %r' % (p.obj,))
+        p.obj.freed = '%s:%s' % (it.curfile(), e.get('line'))
     return None
 
 
